@@ -244,13 +244,19 @@ def check_delimited(case):
 
 @st.composite
 def struct_cases(draw):
-    route = draw(st.sampled_from(['pairs', 'records', 'items', 'pickle', 'deepcopy', 'pickle_he', 'pickle_go']))  # decisive choice first
+    route = draw(st.sampled_from(['pairs', 'records', 'items', 'pickle', 'deepcopy', 'pickle_he', 'pickle_go', 'pairs_rows']))  # decisive choice first
     # (column kinds: any mix, or numbers only / numbers and bools, whose rows would resolve to one numeric type)
     kinds = draw(st.sampled_from([('bool', 'int64', 'float64', '<U3', 'object', 'M8[D]', 'int32'), ('int64', 'float64'), ('int64', 'float64', 'int32', 'bool'),
                                   ('bool', 'int64', 'float64', '<U3')]))
+    # one case in four exports a frame reached by growth (a FrameGO grown block by block, nothing read in between); half of those
+    # draw their columns from one dtype kind, narrow before wide
+    grown = draw(st.integers(0, 3)) == 3
+    if grown:
+        kinds = draw(st.sampled_from([('<U1', '<U3'), kinds, ('M8[D]', 'M8[s]'), kinds]))
+        route = draw(st.sampled_from(['records', 'pairs_rows', 'pairs', 'items']))
     rec = draw(gen.frame_recipe(min_rows=0, max_rows=5, min_cols=0, max_cols=5, kinds=kinds,
                                 index_kinds=('auto', 'int', 'str', 'date', 'ih'), column_kinds=('auto', 'int', 'str', 'ih')))
-    return {'rec': rec, 'route': route,
+    return {'rec': rec, 'route': route, 'grown': grown,
             'iname': draw(st.sampled_from([None, 'in'])), 'cname': draw(st.sampled_from([None, 'cn']))}
 
 
@@ -259,6 +265,11 @@ def check_struct(case):
     route = case['route']
     cls = {'pickle_he': sf.FrameHE, 'pickle_go': sf.FrameGO}.get(route, sf.Frame)
     f = gen.build_frame(rec, cls)
+    grown = bool(case.get('grown')) and route in ('pairs', 'records', 'items', 'pairs_rows') and len(rec['blocks']) >= 2 and rec['columns']['kind'] != 'ih' \
+        and all(b.size or b.ndim == 1 for b in rec['blocks'])
+    if grown:
+        from vf.props.c03 import _grown_frame
+        f = _grown_frame(rec)
     if rec['index']['kind'] != 'auto':
         f = f.rename(index=case['iname']) if route.startswith('pickle') else f
     n, m = f.shape
@@ -285,6 +296,12 @@ def check_struct(case):
         r = lib(lambda: sf.Frame.from_items(((c, [v for _, v in pairs]) for c, pairs in tp), index=[k for k, _ in tp[0][1]] if tp else None, **ckw, **ikw))
         if m == 0:
             raise Discard('no columns to rebuild from pairs')
+    elif route == 'pairs_rows':
+        # pairs by row: (row label, ((column label, cell), ...)), rebuilt as records
+        tp = f.to_pairs(1)
+        if n == 0 or m == 0:
+            raise Discard('no rows/columns')
+        r = lib(lambda: sf.Frame.from_records([[v for _, v in pairs] for _, pairs in tp], index=f.index, columns=f.columns))
     elif route == 'records':
         rows = list(f.iter_tuple(axis=1, constructor=tuple))
         if n == 0 or m == 0:
@@ -314,7 +331,7 @@ def check_struct(case):
                 raise Failure('kind', '%s: column %d of kind %r (%s) came back as %r (%s): %s' % (route, j, c.dtype.kind, c.dtype, g.dtype.kind, g.dtype, short(arr_list(g), 120)))
     if not r.equals(f):
         raise Failure('equals', '%s: rebuilt frame does not equal the original' % route)
-    return {'nt': n > 0 and m > 0, 'cls': ['struct:' + route]}
+    return {'nt': n > 0 and m > 0, 'cls': ['struct:' + route, 'struct-source:' + ('grown' if grown else 'built')]}
 
 
 def tag(case, f):
